@@ -477,3 +477,16 @@ Theorem C07_generated_builder_hyps_reachable : forall E fuel hs t0 en ops s rs,
   SchedApi.Inv s /\ GenJobsEq.LiveLinked s /\ SchedStore.StoreInv s.
 Proof. exact GenBuilderEq.gen_builder_hyps_reachable. Qed.
 Print Assumptions C07_generated_builder_hyps_reachable.
+(* the constructors, translated by tools/gen_init.py (gen/GenInit.v): the initial state of every history and the
+   fresh job records are what AsyncScheduler / InMemoryStore / JobBase / JobCallbackHandler .__init__ say today *)
+From EAS Require GenInitEq.
+Theorem C07_generated_init_is_model : forall t0 en, EASGen.GenInit.gen_init t0 en = Sched.init t0 en.
+Proof. exact GenInitEq.gen_init_is_init. Qed.
+Print Assumptions C07_generated_init_is_model.
+Theorem C07_generated_fresh_job_records : forall t key,
+  EASGen.GenInit.gen_once_init t key = Sched.new_job Sched.KOnce t 0 key /\
+  EASGen.GenInit.gen_at_init key = Sched.new_job Sched.KAt 0 0 key /\
+  EASGen.GenInit.gen_handler_init = [].
+Proof. intros t key. exact (conj (GenInitEq.gen_once_init_is_new_job t key)
+  (conj (GenInitEq.gen_at_init_is_new_job key) GenInitEq.gen_handler_init_empty)). Qed.
+Print Assumptions C07_generated_fresh_job_records.
